@@ -361,6 +361,7 @@ def gen_scenario(rng, n_ops):
         y = [rng.randint(-3, 12) for _ in X]
         Xa = numpy.array(X, dtype=numpy.int64)
         ya = numpy.array(y, dtype=numpy.int64)
+        mark = (len(toks), len(exp), len(kinds))
         try:
             if r < 0.08:
                 i = rng.choice(models)
@@ -496,8 +497,10 @@ def gen_scenario(rng, n_ops):
                     except Exception as e:
                         exp.append(err(e) + " # " + W.snapshot())
                         kinds.append("transfer-transform-err")
-        except Exception as e:   # harness-level surprise: stop the scenario, the driver sees what was emitted
-            raise
+        except Exception as e:   # an operation the generator believed valid raised: drop it and end the scenario
+            del toks[mark[0]:], exp[mark[1]:], kinds[mark[2]:]
+            kinds.append("aborted:" + type(e).__name__)
+            break
     return toks, exp, kinds
 
 
@@ -509,7 +512,7 @@ def correspond(ctx):
     corr.rule = RULE
     rng = ctx.rng
     lines, cases = ["tables"], [("tables", None, None)]
-    for t in range(ctx.pick(250, 4000)):
+    for t in range(ctx.pick(600, 12000)):
         toks, exp, kinds = gen_scenario(rng, rng.randint(6, ctx.pick(14, 40)))
         lines.append("scn " + "|".join(toks))
         cases.append(("scn", exp, kinds))
@@ -520,6 +523,10 @@ def correspond(ctx):
             corr.case(("tables",), nontrivial=True, sample={"op": "tables", "model": got})
             continue
         got_l = got.split(" ## ")
+        if kinds and kinds[-1].startswith("aborted:"):
+            corr.hit(kinds[-1])
+            corr.errors.append("scenario aborted: an operation valid by construction raised %s after %s"
+                               % (kinds[-1][8:], kinds[-4:-1])) if len(corr.errors) < 3 else None
         for j, want in enumerate(exp):
             g = got_l[j] if j < len(got_l) else "<missing>"
             k = kinds[j]
@@ -767,11 +774,15 @@ def _check_real(name, fac, X, yr, copy_estimator, vs, stats):
                             "%s: %s" % (type(e).__name__, str(e)[:100]), "self, transform = the estimator's output"))
         return
     got = numpy.asarray(t.transform(X))
+    now = numpy.asarray(getattr(t.estimator_, t.method)(X))
+    if got.shape != now.shape or not numpy.allclose(got, now, rtol=0, atol=0):
+        vs.append(Violation("TransferTransformer.transform:not-estimator-output", "transform differs from estimator_'s output (%s)" % name,
+                            inp, got.ravel()[:4].tolist(), now.ravel()[:4].tolist()))
     if got.shape != want.shape or not numpy.allclose(got, want, rtol=0, atol=0):
-        vs.append(Violation("TransferTransformer.transform:not-estimator-output", "transform differs from the wrapped %s's output" % name,
-                            inp, got.ravel()[:4].tolist(), want.ravel()[:4].tolist()))
+        vs.append(Violation("TransferTransformer.fit:frozen-estimator-changed", "not trainable, yet after fit the transfer of a fitted "
+                            "%s no longer returns what the estimator returned" % name, inp, got.ravel()[:4].tolist(), want.ravel()[:4].tolist()))
     after = numpy.asarray(getattr(est, t.method)(X))
-    if not numpy.allclose(after, want, rtol=0, atol=0):
+    if after.shape != want.shape or not numpy.allclose(after, want, rtol=0, atol=0):
         vs.append(Violation("TransferTransformer.fit:frozen-estimator-changed", "the frozen %s predicts differently after fit" % name, inp))
 
 
@@ -786,7 +797,7 @@ def search(ctx, hints):
     for name, fac in facs:
         for cp in (True, False):
             _check_real(name, fac, X, yr, cp, vs, stats)
-    for t in range(ctx.pick(150, 3000)):
+    for t in range(ctx.pick(400, 8000)):
         for chk in (_check_learner, _check_stacking, _check_transfer):
             try:
                 chk(rng, vs, stats)
